@@ -299,6 +299,13 @@ func c18Value(c *core.Ctx, a appType, p appPayload, r *core.RNG, how string) {
 		if tail != nil {
 			what = "followed-by-other-bytes"
 		}
+		if err != nil && tail != nil {
+			// a payload decoder handed more than its own bytes may refuse them: the property speaks of command
+			// sequences, and whether those decode is judged on sequences (the stream monitor), however the
+			// library cuts them up internally
+			c.Count("payload-decoders.refuse-trailing-bytes", 1)
+			continue
+		}
 		if err != nil {
 			c.Violate("C18|"+a.name+"|"+what+"|refused", "own encoding %x (+%d trailing bytes) refused: %v", b, len(tail), err)
 			return
